@@ -33,7 +33,7 @@ COMPONENTS = {"real": ["configure_v2 warm start", "warm_start()", "Model.__init_
 ASSUMPTIONS = ["a file counts as completed when its numrec-th record has been written (doc/source/output.rst)",
                "diffusion off; the activity flag is not part of the restart state and is not scripted",
                "a trailing record exactly at the restarted run's stop time is not judged"]
-TIERS = {"quick": dict(runs=150, budget_s=55, shrink=60, reps_per_tag=1),
+TIERS = {"quick": dict(runs=320, budget_s=60, shrink=60, reps_per_tag=1),
          "thorough": dict(runs=15000, budget_s=1200, shrink=120, reps_per_tag=2)}
 REQUIRED_PROBES = ["restart", "chain2", "chain3", "stop_off_grid", "pending_release_at_restart", "death_before_restart",
                    "crash_in_partial_file", "particle_variables", "rk"]
@@ -339,6 +339,7 @@ def self_restart(res: Result, sc, U, Urec_by_time, writesU, dU, k: int, s: int, 
                 site_n = "pid_counter_lost:newest pids absent from the restart file"
         if site:
             site_n = site_n or site      # an earlier generation already lost the counter
+        site = site_n                    # ... and every later generation inherits the loss
         nc2 = compare_to_U(res, sc, U, Urec_by_time, Rn, None, n_from + 1, gen_no, site_n)
         if nc2:
             res.probes[f"chain{gen_no - 1}"] += 1
